@@ -708,6 +708,12 @@ class BasePeripheralsImpl:
                 error_code=Device.Error.FILE_NOT_FOUND,
                 error_msg=f'No such file or directory: {filespec}',
             )
+        except OSError as e:
+            # a directory, a file we may not delete, ...
+            raise DeviceError(
+                error_code=Device.Error.OP_FAILED,
+                error_msg=f'Cannot delete {filespec}: {e.strerror}',
+            )
 
     # misc
 
